@@ -682,6 +682,13 @@ class Z80(Snapshot):
 
     def data(self):
         z80 = bytearray()
+        if len(self.header) == 30 and sum(self.header[6:8]) == 0:
+            # PC=0 in a version 1 header would mark the file as version 2/3,
+            # so write a version 3 header (with PC in bytes 32-33) instead
+            self.header = self.header + [0] * 56
+            self.header[30] = 54
+            banks = self.memory.banks
+            self.memory = Memory(banks=[None, banks[2], banks[0], None, None, banks[5], None, None])
         if len(self.header) == 30:
             # Version 1
             self.header[12] |= 32 # RAM is compressed
